@@ -1,0 +1,77 @@
+//go:build verif
+
+// Contracts for contract-based deductive verification (checked by /verif/govc).
+// This file is comment-only and compiled only with the build tag "verif".
+
+package topologyaware
+
+// ---- printing helpers: no effect on the tracked state ---------------------------------------------------------
+//@ effect (*supply).DumpCapacity pure
+//@ effect (*supply).DumpAllocatable pure
+//@ iface github.com/containers/nri-plugins/cmd/plugins/topology-aware/policy.Node.Name
+//@   modifies nothing
+
+// Supply has the single implementation *supply
+//@ pure sup(s Supply) *supply = s
+
+// ---- getCpuSupply (C16/C01): each pool's CPUs split disjointly into isolated, reserved and sharable -------------
+// Precondition: the excluded configuration (a reserved cpuset that is itself kernel-isolated) does not occur
+// among the CPUs of this pool.
+//@ pure splitOK(s *supply, all cpuset.CPUSet) bool =
+//@    s.isolated.Intersection(s.reserved).IsEmpty() && s.isolated.Intersection(s.sharable).IsEmpty() &&
+//@    s.reserved.Intersection(s.sharable).IsEmpty() && s.isolated.Union(s.reserved).Union(s.sharable).Equals(all)
+//@ func (*policy).getCpuSupply
+//@   requires p != nil && p.isolated.Intersection(p.reserved).Intersection(cpus).IsEmpty()
+//@   modifies nothing
+//@   ensures[C16,C01] fresh(result0) && fresh(result1) && result0 != result1
+//@   ensures[C16,C01] splitOK(sup(result0), cpus.Intersection(p.allowed))
+//@   ensures[C16,C01] splitOK(sup(result1), cpus.Intersection(p.allowed))
+//@   ensures[C16,C01] sup(result0).isolated.Equals(cpus.Intersection(p.allowed).Intersection(p.isolated))
+//@   ensures[C16,C01] sup(result0).reserved.Equals(cpus.Intersection(p.allowed).Intersection(p.reserved))
+//@   ensures[C16,C01] sup(result1).isolated.Equals(sup(result0).isolated) && sup(result1).reserved.Equals(sup(result0).reserved) && sup(result1).sharable.Equals(sup(result0).sharable)
+//@   ensures[C16,C03] sup(result0).grantedShared == 0 && sup(result0).grantedReserved == 0 && sup(result1).grantedShared == 0 && sup(result1).grantedReserved == 0
+//@   ensures[C16] sup(result0).node == node && sup(result1).node == node
+
+// ---- the CPU allocator (verified in pkg/cpuallocator, C08) as seen through its interface ---------------------------
+// Copied from the contracts of (*cpuAllocator).AllocateCpus/ReleaseCpus; their preconditions (count >= 0; the
+// candidate set consists of online CPUs known to sysfs; T4: the allocator's topology cache is well-formed) appear
+// as antecedents, so a caller learns nothing unless it can establish them. (`from != nil` is not stated: the callers
+// pass addresses of struct fields / locals, which the specification language cannot compare with nil.)
+//@ pure caSys(ca cpuallocator.CPUAllocator) system.System
+//@ pure caOK(ca cpuallocator.CPUAllocator, F cpuset.CPUSet) bool =
+//@    F.Intersection(cpuallocator.sysOffline(caSys(ca))).IsEmpty() && F.IsSubsetOf(cpuallocator.sysCPUs(caSys(ca)))
+//@ iface github.com/containers/nri-plugins/pkg/cpuallocator.CPUAllocator.AllocateCpus
+//@   modifies *arg0
+//@   ensures arg1 >= 0 && caOK(self, old(*arg0)) && arg1 > old(*arg0).Size() ==> result1 != nil && (*arg0).Equals(old(*arg0))
+//@   ensures arg1 >= 0 && caOK(self, old(*arg0)) && arg1 <= old(*arg0).Size() && result1 == nil ==> result0.Size() == arg1 && result0.IsSubsetOf(old(*arg0)) && (*arg0).Equals(old(*arg0).Difference(result0))
+//@   ensures arg1 >= 0 && caOK(self, old(*arg0)) && arg1 <= old(*arg0).Size() && result1 != nil ==> (*arg0).Equals(old(*arg0))
+//@ iface github.com/containers/nri-plugins/pkg/cpuallocator.CPUAllocator.ReleaseCpus
+//@   modifies *arg0
+//@   ensures arg1 >= 0 && arg1 <= old(*arg0).Size() && caOK(self, old(*arg0)) && result1 == nil ==> (*arg0).Size() == arg1 && (*arg0).IsSubsetOf(old(*arg0)) && result0.Equals(old(*arg0).Difference(*arg0))
+//@   ensures arg1 >= 0 && arg1 <= old(*arg0).Size() && caOK(self, old(*arg0)) && result1 != nil ==> (*arg0).Equals(old(*arg0))
+
+// sysfs accessors used by the policy (T4: assumed faithful; the offline set is the one the allocator sees)
+//@ pure sysIsolated(s system.System) cpuset.CPUSet
+//@ iface github.com/containers/nri-plugins/pkg/sysfs.System.Isolated
+//@   ensures result == sysIsolated(self)
+//@ iface github.com/containers/nri-plugins/pkg/sysfs.System.CPUSet
+//@   ensures result == cpuallocator.sysCPUs(self)
+
+// ---- checkConstraints (C16/C01) ------------------------------------------------------------------------------------
+// Assumptions: the allocator was made for p.sys (Setup); an explicitly configured available cpuset names online CPUs
+// known to sysfs; reserved subset-of allowed is claimed for non-negative reserved quantities only (for a negative count
+// the allocator's contract says nothing; the real allocator returns the empty set, which is rejected).
+//@ pure availCfg(p *policy) cpuset.CPUSet = p.cfg.AvailableResources.Get(cfgapi.CPU).0.ParseCPUSet().0
+//@ func (*policy).checkConstraints
+//@   requires p != nil && p.cfg != nil && p.sys != nil && p.cpuAllocator != nil && caSys(p.cpuAllocator) == p.sys
+//@   requires p.cfg.AvailableResources.Get(cfgapi.CPU).1 == cfgapi.AmountCPUSet ==> caOK(p.cpuAllocator, availCfg(p))
+//@   modifies p.allowed, p.isolated, p.reserved, p.reserveCnt
+//@   ensures[C16,C01] err == nil ==> !p.reserved.IsEmpty()
+//@   let rkind = p.cfg.ReservedResources.Get(cfgapi.CPU).1
+//@   ensures[C16,C01] err == nil && (rkind == cfgapi.AmountQuantity ==> p.reserveCnt >= 0) ==> p.reserved.IsSubsetOf(p.allowed)
+//@   ensures[C16,C01] err == nil ==> p.isolated.Equals(sysIsolated(p.sys).Intersection(p.allowed))
+//@   # the isolated-reserved rule: reserved CPUs are not isolated, except for the tolerated single isolated reserved CPU
+//@   ensures[C16,C01] err == nil && (rkind == cfgapi.AmountQuantity ==> p.reserveCnt >= 0) ==>
+//@        p.reserved.Intersection(p.isolated).IsEmpty() || (p.reserved.IsSubsetOf(p.isolated) && p.reserved.Size() == 1)
+//@ assert[C16] in (*policy).checkConstraints at "p.isolated = p.sys.Isolated()": caOK(p.cpuAllocator, p.allowed)
+//@ assert[C16] in (*policy).checkConstraints at "cset, err := p.cpuAllocator.AllocateCpus(": caOK(p.cpuAllocator, from) && from.IsSubsetOf(p.allowed)
